@@ -431,6 +431,67 @@ class FnOverlay:
         self.fo.ov.rewrites.append({"rule": rule, "fn": self.path, "old": _norm_ws(old), "new": _norm_ws(new)})
         return self
 
+    def cut(self, text, name, params, call, ensures=(), requires=(), ret=None):
+        """CUT: one expression/statement outside Verus' subset is replaced by a call to a function whose BODY IS THE
+        ORIGINAL TEXT VERBATIM and which is external_body with an ASSUMED contract.  Anchored on the exact text:
+        any change inside it loses the anchor (UNDECIDED), it is never silently trusted."""
+        fo = self.fo
+        s, e = fo.find_unique(text, *self._span(), what=f"(cut in fn {self.path})")
+        orig = fo.src(s, e)
+        fo.replace(s, e, call, note=f"CUT {name}: `{_norm_ws(orig)[:160]}` => `{call}` (body verbatim, contract assumed)")
+        encl = [x for x in fo.index if x["kind"] == "impl" and x["brace_start"] < self.it["start"] and self.it["end"] <= x["brace_end"]]
+        sig = f"fn {name}({params})" + (f" -> ({ret})" if ret else "")
+        spec = ""
+        if requires:
+            spec += "\n    requires " + ", ".join(requires) + ","
+        if ensures:
+            spec += "\n    ensures " + ", ".join(ensures) + ","
+        body = "#[verifier::external_body]\n" + sig + spec + "\n{\n    " + orig + "\n}\n"
+        if encl:
+            im = max(encl, key=lambda x: x["start"])
+            header = fo.src(im["start"], im["brace_start"] + 1)
+            body = header + "\n" + body + "}\n"
+        fo.append("::vstd::prelude::verus!{\n" + body + "} // verus!", note=f"cut fn {name} (external_body, body = original text)")
+        fo.ov.assumed.append({"unit": f"{self.unit}.{name}", "fn": f"CUT {name} in {self.path}", "file": fo.rel,
+                              "requires": [_norm_ws(c) for c in requires], "ensures": [_norm_ws(c) for c in ensures],
+                              "cut_text": _norm_ws(orig)})
+        fo.ov.rewrites.append({"rule": "CUT", "fn": self.path, "old": _norm_ws(orig), "new": call})
+        return self
+
+    def cut_scalar_const(self, name, expected_cv, expected_text):
+        """A local `const NAME: BlsScalar = BlsScalar([l0, l1, l2, l3]);` (raw Montgomery limbs; the constructor of
+        the opaque dependency type is not expressible in Verus) => `let NAME: BlsScalar = Self::cut_NAME();` where
+        the cut fn's body is the original const item + `NAME`.  Its contract `cv(r) == expected` is DISCHARGED here by
+        exact integer arithmetic on the limbs read from the real source (Montgomery form: value = limbs * 2^-256 mod r)."""
+        fo = self.fo
+        bs, be = self._span()
+        m = re.search((r"const\s+" + name + r"\s*:\s*BlsScalar\s*=\s*BlsScalar\(\s*\[([^\]]*)\]\s*,?\s*\)\s*;").encode(), fo.data[bs:be])
+        if not m:
+            raise AnchorLost(f"const {name} with raw limbs not found in {self.path}")
+        orig = fo.data[bs + m.start():bs + m.end()].decode()
+        limbs = [int(x.strip().replace("_", ""), 0) for x in m.group(1).decode().split(",") if x.strip()]
+        if len(limbs) != 4:
+            raise AnchorLost(f"const {name}: expected 4 limbs")
+        R_ = 0x73eda753299d7d483339d80809a1d80553bda402fffe5bfeffffffff00000001
+        raw = sum(l << (64 * i) for i, l in enumerate(limbs))
+        val = raw * pow(1 << 256, -1, R_) % R_
+        fn = "cut_" + name.lower()
+        fo.replace(bs + m.start(), bs + m.end(), f"let {name}: BlsScalar = Self::{fn}();",
+                   note=f"CUT {fn}: local const {name} (raw Montgomery limbs) => let + wrapper fn; value checked by integer arithmetic")
+        encl = [x for x in fo.index if x["kind"] == "impl" and x["brace_start"] < self.it["start"] and self.it["end"] <= x["brace_end"]]
+        im = max(encl, key=lambda x: x["start"])
+        header = fo.src(im["start"], im["brace_start"] + 1)
+        fo.append("::vstd::prelude::verus!{\n" + header + f"\n#[verifier::external_body]\nfn {fn}() -> (r: BlsScalar) ensures cv(r) == {expected_text} {{\n    {orig}\n    {name}\n}}\n}}\n}} // verus!",
+                  note=f"cut fn {fn}")
+        tag = f"{self.unit}.const.{name}"
+        ok = (val == expected_cv % R_)
+        fo.ov.obligations.append({"id": tag, "unit": self.unit, "kind": "const_value", "backend": "bigint",
+                                  "text": f"Montgomery limbs of {name} denote {expected_text}",
+                                  "precomputed": "discharged" if ok else "failed",
+                                  "detail": None if ok else f"limbs {[hex(l) for l in limbs]} denote {hex(val)}, expected {hex(expected_cv % R_)}"})
+        fo.ov.rewrites.append({"rule": "CUT-const", "fn": self.path, "old": _norm_ws(orig), "new": f"let {name} = Self::{fn}();"})
+        return self
+
     def demut_self(self):
         """D7: `fn f(mut self, ..) { B }` => `fn f(self, ..) { let mut slf = self; B[self := slf] }`.
         Verus does not support `mut self`; the rewrite is an alpha-renaming of the receiver binding."""
